@@ -50,6 +50,25 @@ func toStrings(l [][]byte) []string {
 func childMain() {
 	e := os.Environ()
 	h := diff.GetHardenedEnv()
+	// sequence mode: after the first observation the process changes its own environment
+	// (os.Setenv / os.Unsetenv, as a long-running caller does between two loads) and is
+	// observed again; the second pair is what gets reported
+	if len(os.Args) > 3 && os.Args[2] == "seq" {
+		var ops [][]string
+		if json.Unmarshal([]byte(os.Args[3]), &ops) != nil {
+			os.Exit(4)
+		}
+		for _, op := range ops {
+			switch {
+			case op[0] == "set" && len(op) == 3:
+				os.Setenv(op[1], op[2])
+			case op[0] == "unset" && len(op) == 2:
+				os.Unsetenv(op[1])
+			}
+		}
+		e = os.Environ()
+		h = diff.GetHardenedEnv()
+	}
 	b, err := json.Marshal(childOut{Environ: toBytes(e), Hardened: toBytes(h)})
 	if err != nil {
 		os.Exit(3)
@@ -103,7 +122,18 @@ func forkExecCapture(path string, argv, envv []string, dir string, stderrTo *os.
 }
 
 func runEnvChild(envv []string) (environ, hardened []string, err error) {
-	data, rc, err := forkExecCapture(os.Getenv("VERIF_SELF"), []string{"c15", "envchild"}, envv, "", nil)
+	return runEnvChildSeq(envv, nil)
+}
+
+// runEnvChildSeq: ops (set/unset) are applied inside the child between a first, discarded
+// GetHardenedEnv call and the reported one.
+func runEnvChildSeq(envv []string, ops [][]string) (environ, hardened []string, err error) {
+	argv := []string{"c15", "envchild"}
+	if ops != nil {
+		b, _ := json.Marshal(ops)
+		argv = append(argv, "seq", string(b))
+	}
+	data, rc, err := forkExecCapture(os.Getenv("VERIF_SELF"), argv, envv, "", nil)
 	if err != nil {
 		return nil, nil, err
 	}
@@ -167,6 +197,7 @@ type aResult struct {
 	err      error
 	finds    []finding
 	modelOK  bool
+	seq      bool
 }
 
 func caseEnvA(i int) []string {
@@ -178,6 +209,9 @@ func caseEnvA(i int) []string {
 
 func runCaseA(i int) aResult {
 	raw := caseEnvA(i)
+	if i%5 == 3 {
+		return runCaseASeq(i, raw)
+	}
 	e, h, err := runEnvChild(raw)
 	r := aResult{raw: raw, env: e, got: h, err: err}
 	if err != nil {
@@ -186,6 +220,40 @@ func runCaseA(i int) aResult {
 	r.modelOK = sameList(modelEnviron(raw), e)
 	r.finds = judge(e, h, judgeOpts{monitor: "A", lastWins: true})
 	return r
+}
+
+// runCaseASeq: the same oracle on the SECOND observation of one process whose environment
+// changed in between (new, changed and removed unrelated variables; a hostile guarded one).
+func runCaseASeq(i int, raw []string) aResult {
+	r := evid.Rand(int64(3_000_000 + i))
+	ops := [][]string{{"set", fmt.Sprintf("SFW_VERIF_NEW_%d", i), "added-later"}}
+	var keys []string
+	for _, e := range raw {
+		if k, _, ok := splitEntry(e); ok && k != "" && !strings.ContainsAny(k, "=\x00") {
+			keys = append(keys, k)
+		}
+	}
+	if len(keys) > 0 {
+		ops = append(ops, []string{"set", keys[r.Intn(len(keys))], "changed-later"})
+		if r.Intn(2) == 0 {
+			ops = append(ops, []string{"unset", keys[r.Intn(len(keys))]})
+		}
+	}
+	if r.Intn(2) == 0 {
+		g := guards[r.Intn(len(guards))]
+		ops = append(ops, []string{"set", g.Key, nonRequired(g.Key, i)})
+	}
+	e, h, err := runEnvChildSeq(raw, ops)
+	res := aResult{raw: raw, env: e, got: h, err: err, modelOK: true, seq: true}
+	if err != nil {
+		return res
+	}
+	for _, f := range judge(e, h, judgeOpts{monitor: "A", lastWins: true}) {
+		f.Key = strings.Replace(f.Key, "A/", "A/after-env-change/", 1)
+		f.What = "second call in one process, after os.Setenv/Unsetenv " + fmt.Sprint(ops) + ": " + f.What
+		res.finds = append(res.finds, f)
+	}
+	return res
 }
 
 func baseline(res *evid.Result) bool {
@@ -261,6 +329,10 @@ func monitorA(res *evid.Result, only int) {
 		res.Eval(1)
 		fs := features(r.env)
 		res.Count("A_cases", 1)
+		if r.seq {
+			res.Count("A_cases_second_call_after_env_change", 1)
+			fs = append(fs, "second-call")
+		}
 		res.Count("A_env_entries", len(r.env))
 		for _, f := range fs {
 			res.Count("A_feat_"+f, 1)
